@@ -1564,6 +1564,15 @@ def check_C15(v, tier, seed):
                     skipped.append(f"sysctl={val}: not writable ({e})")
                     continue
             runs.append(Run(f"C15-psl{val}", ["c15"]))
+            if val == "1":
+                # the sysctl cannot be read: a /proc mounted subset=pid has no sys/ directory, and the unprivileged
+                # callers of the matrix cannot mount a procfs of their own.  The rule is in force all the same.
+                try:
+                    runs.append(Run("C15-psl1-subsetpid", ["c15"],
+                                    prefix=["unshare", "-m", "-p", "-f", "sh", "-c",
+                                            'mount -t proc -o subset=pid proc /proc && exec "$@"', "sh"]))
+                except vlib.BuildError as e:
+                    skipped.append("subset=pid environment: " + str(e)[-200:])
     finally:
         if original is not None:
             try:
